@@ -8,6 +8,7 @@ import ast
 import dataclasses
 import itertools
 
+from hypothesis import assume
 from hypothesis import strategies as st
 
 from vf.common import srcgen
@@ -58,6 +59,14 @@ def _comp_case(draw, maxdepth):
     elt_t = typed.any_type(cx, e2, 1)
     if elt_t[0] == "S":
         elt_t = typed.I
+    captured = None
+    if v != p and draw(st.integers(0, 2)) == 0:
+        # the iterable mentions a captured module constant that has the same name as the loop variable (python evaluates the
+        # iterable in the enclosing scope); only meaningful for the callable form, which is then forced below
+        member = {"Jet": ".idx", "Trk": ".n"}.get(st_[1] if st_[0] == "O" else None, "" if st_ == typed.I else None)
+        if member is not None:
+            captured = {"name": v, "value": draw(st.integers(0, 3))}
+            src = f"Where({src}, lambda zq: zq{member} <= {v})"
     comp = typed.comprehension(cx, e2, v, src, typed.gen(cx, e2, elt_t, depth), depth)
     if k == 0:
         body = comp
@@ -71,9 +80,12 @@ def _comp_case(draw, maxdepth):
     else:
         body = f"({comp}, {typed.gen(cx, env, typed.F, depth - 1)})"
     form = draw(st.sampled_from(["sugar", "sugar", "string", "callable"]))
+    if captured:
+        form = "callable"
     if form == "callable" and "ds" in body.replace("nds", ""):
+        assume(not captured)
         form = "string"  # the root dataset would be a (non-transportable) captured variable of the callable
-    return {"kind": "comp", "param": p, "body": body, "data": draw(typed.dataset()), "form": form, "naming": naming}
+    return {"kind": "comp", "param": p, "body": body, "data": draw(typed.dataset()), "form": form, "naming": naming, "captured": captured}
 
 
 @st.composite
@@ -179,12 +191,15 @@ def _check_comp(case, r: Result) -> Result:
     if any(isinstance(c, ast.GeneratorExp) for c in comps):
         r.labels.append("generator-expression")
 
+    cap = {case["captured"]["name"]: case["captured"]["value"]} if case.get("captured") else {}
+    if cap:
+        r.labels.append("captured-constant-named-like-target-in-iterable")
     # reference: CPython runs the comprehension itself
     evs_py = schema.build(case["data"], lazy=False)
     try:
         f = eval(compile(ast.Expression(body=ast.parse(text, mode="eval").body), "<c06-ref>", "eval"),
                  {"ds": evs_py, "Count": lambda s: len(list(s)), "First": lambda s: list(s)[0], "Select": pyeval.Select, "Where": pyeval.Where,
-                  "SelectMany": pyeval.SelectMany, "abs": abs, "len": len})
+                  "SelectMany": pyeval.SelectMany, "abs": abs, "len": len, **cap})
         want = [pyeval.materialise(f(e)) for e in evs_py]
     except Exception:
         r.ref_error = True
@@ -196,7 +211,8 @@ def _check_comp(case, r: Result) -> Result:
         elif case["form"] == "string":
             low = DS().Select(text).query_ast.args[1]
         else:
-            with srcgen.module(f"def build(ds):\n    return ds.Select({text})\n") as mod:
+            pre = "".join(f"{k} = {v!r}\n" for k, v in cap.items())
+            with srcgen.module(f"{pre}def build(ds):\n    return ds.Select({text})\n") as mod:
                 low = mod.build(DS()).query_ast.args[1]
     except Exception as e:
         return r.fail(f"lowering [{case['form']}] raised {type(e).__name__}: {e}; {text}")
